@@ -51,7 +51,7 @@ func init() {
 		{ID: "E8.device.auth.verification-on-issuer", Fn: "op.createDeviceAuthorization", Kind: "store", Pat: "store($v.Path, $cfg.UserFormPath)", Max: 1,
 			Req: []string{"def($v, url.Parse(op.IssuerFromContext(_)), 0)", "ok(url.Parse(op.IssuerFromContext(_)))", `eq($cfg.UserFormURL, "")`}},
 		{ID: "E7.device.code.csprng", Fn: "op.NewDeviceCode", P: []string{"nBytes"}, Kind: "call", Pat: "rand.Read($bytes)", Max: 1, Req: []string{"def($bytes, make(_, $nBytes))"}},
-		{ID: "E8.device.code.encoding", Fn: "op.NewDeviceCode", P: []string{"nBytes"}, Kind: "ret any", Pat: "ret(base64.RawURLEncoding.EncodeToString($bytes), nil)", Max: 1, Req: []string{"def($bytes, make(_, $nBytes))"}},
+		{ID: "E8.device.code.encoding", Fn: "op.NewDeviceCode", P: []string{"nBytes"}, Kind: "ret any", Pat: "ret(base64.RawURLEncoding.EncodeToString($bytes), nil)", Max: 1, Only: true, Req: []string{"def($bytes, make(_, $nBytes))"}},
 		{ID: "E7.device.usercode.csprng", Fn: "op.NewUserCode", P: []string{"charSet", "charAmount", "dashInterval"}, Kind: "call", Pat: "rand.Int(rand.Reader, $max)", Max: 1,
 			Req: []string{"def($max, big.NewInt(conv(int64, len($charSet))))"}},
 	}
